@@ -23,6 +23,7 @@ func main() {
 	repo := flag.String("repo", "/repo", "repository root")
 	verif := flag.String("verif", "", "verification directory (default: directory above the binary, else /verif)")
 	list := flag.Bool("list", false, "list properties and rules")
+	doc := flag.Bool("doc", false, "print the rule sets as markdown (runs every property once on -repo)")
 	replay := flag.String("replay", "", "re-evaluate the obligation recorded in a violation file")
 	verbose := flag.Bool("v", false, "print every obligation")
 	noSelf := flag.Bool("noselftest", false, "thorough tier without the seeded-variant self-validation")
@@ -46,6 +47,54 @@ func main() {
 		sort.Strings(ids)
 		for _, id := range ids {
 			fmt.Printf("%s  %s\n", id, rules.Registry[id].Title)
+		}
+		return
+	}
+	if *doc {
+		w, err := core.Load(*repo, core.BuildConfig{})
+		if err != nil {
+			fmt.Fprintln(os.Stderr, err)
+			os.Exit(2)
+		}
+		var ids []string
+		for id := range rules.Registry {
+			ids = append(ids, id)
+		}
+		sort.Strings(ids)
+		for _, id := range ids {
+			pc := rules.Registry[id]
+			r := core.NewReport(id, w)
+			pc.Run(w, r)
+			cnt := map[string][3]int{}
+			for _, o := range r.Obls {
+				c := cnt[o.Rule]
+				switch o.Verdict {
+				case core.VOK:
+					c[0]++
+				case core.VViolated:
+					c[1]++
+				default:
+					c[2]++
+				}
+				cnt[o.Rule] = c
+			}
+			fmt.Printf("### %s %s\n\n", id, pc.Title)
+			fmt.Printf("*Decided.* %s\n\n", pc.Explain)
+			var rids []string
+			for k := range r.RuleDocs {
+				rids = append(rids, k)
+			}
+			sort.Strings(rids)
+			fmt.Println("| rule | statement | obligations on the current tree (discharged / violated = findings / other) |")
+			fmt.Println("|---|---|---|")
+			for _, k := range rids {
+				c := cnt[k]
+				fmt.Printf("| %s | %s | %d / %d / %d |\n", k, r.RuleDocs[k], c[0], c[1], c[2])
+			}
+			fmt.Printf("\n*Not decided.* %s\n\n", pc.NotDecided)
+			if len(pc.Assume) > 0 {
+				fmt.Printf("*Assumptions.* %s\n\n", strings.Join(pc.Assume, "; "))
+			}
 		}
 		return
 	}
